@@ -482,7 +482,8 @@ pub const ASSUMPTIONS: &[&str] = &[
 
 pub fn spaces(tier: &str, _seed: u64) -> Vec<Box<dyn Space>> {
     let thorough = tier == "thorough";
-    let mut kinds = vec![NKind::Exp, NKind::Pow(0.5), NKind::Pow(0.25), NKind::Pow(0.1), NKind::GenPow(vec![0.5, 0.5], 1), NKind::GenPow(vec![0.2, 0.3, 0.5], 2)];
+    // (exponents within 2% of the ends of (0,1) are in the quick tier too: the Newton start value overshoots most there)
+    let mut kinds = vec![NKind::Exp, NKind::Pow(0.5), NKind::Pow(0.25), NKind::Pow(0.1), NKind::Pow(0.01), NKind::Pow(0.99), NKind::GenPow(vec![0.5, 0.5], 1), NKind::GenPow(vec![0.2, 0.3, 0.5], 2)];
     if thorough {
         kinds.extend([NKind::Pow(1e-3), NKind::Pow(0.75), NKind::Pow(0.9), NKind::Pow(1.0 - 1e-3), NKind::GenPow(vec![0.1, 0.9], 3), NKind::GenPow(vec![0.3, 0.3, 0.4], 1), NKind::GenPow(vec![0.1, 0.2, 0.7], 3)]);
     }
